@@ -54,6 +54,7 @@ func cmdVerify(args []string) {
 	dump := fs.Bool("dump", false, "print queries of undischarged obligations")
 	dumpAll := fs.Bool("dumpall", false, "print all queries")
 	verbose := fs.Bool("v", false, "print every obligation")
+	thoroughF := fs.Bool("thorough", false, "thorough-tier rank caps (ignore maxrank_quick)")
 	fs.Parse(args)
 	t0 := time.Now()
 	P, err := LoadProg(*repo, *tags)
@@ -72,7 +73,7 @@ func cmdVerify(args []string) {
 	for _, a := range fs.Args() {
 		keys = append(keys, P.matchKeys(a)...)
 	}
-	results := P.VerifyAll(keys, VerifyOpts{MaxRank: *maxRank}, solv)
+	results := P.VerifyAll(keys, VerifyOpts{MaxRank: *maxRank, Thorough: *thoroughF}, solv)
 	bad := 0
 	for _, r := range results {
 		agg := aggregate(r.Obls)
